@@ -4,7 +4,7 @@ whether the caller's input object changed, and whether module-level state of the
     python c11worker.py <repo> <history.json>     →  one JSON document on stdout
 history.json = {"problems": [dict, …], "ops": [[kind, i], …]}
 kinds: svc_dict, svc_dict_of_models (dictionary holding validated records), svc_model (a new validated model per call), svc_same_model (one model object per problem, reused),
-       pp (one PinchProblem wrapper reused for the whole history: load(model) + target()).
+       pp (one PinchProblem wrapper reused for the whole history: load(model) + target()), pp_file (the same wrapper, load(P<i>.json) + target()).
 """
 import copy
 import json
@@ -98,8 +98,26 @@ def main():
                     wrapper = PinchProblem()
                 m = TargetInput.model_validate(copy.deepcopy(problems[i]))
                 wrapper.load(m)
+                # what the wrapper would name the project now, against a fresh wrapper given the same source
+                fresh_pp = PinchProblem(); fresh_pp.load(m)
+                rec["project_name"] = [getattr(wrapper, "_project_name", None), getattr(fresh_pp, "_project_name", None)]
                 wrapper._project_name = f"P{i}"
                 res = wrapper.target()
+                rec["input_unchanged"] = True
+            elif kind == "pp_file":
+                # the same reused wrapper, loading from a JSON file whose stem is the project name
+                import tempfile, pathlib
+                if wrapper is None:
+                    wrapper = PinchProblem()
+                d = pathlib.Path(tempfile.mkdtemp(prefix="opv_c11_"))
+                try:
+                    fp = d / f"P{i}.json"
+                    fp.write_text(json.dumps(problems[i]))
+                    wrapper.load(fp)
+                    res = wrapper.target()
+                finally:
+                    import shutil
+                    shutil.rmtree(d, ignore_errors=True)
                 rec["input_unchanged"] = True
             else:
                 raise ValueError(kind)
